@@ -19,9 +19,9 @@ PROPS = {
           "state (in-flight around est/2 and est, RTT solved for Vegas' queue thresholds, RTT = baseline +-1) and edge values "
           "(rtt 0, 1, 2^53+1, 2^62, in-flight 0 and 2^31-1); non-trivial = a sample that changed the estimate or carried an edge value; "
           "distinct by (algorithm, wrapper, estimate before/after, inputs)",
-  "level_text": "C04_aimd_safe and C04_vegas_safe are proved for every sample list (unbounded length, all jitter draws, Log10 oracle in [2,400]): no panic, "
-                "finite estimate, reported integer within [1, ceiling]. Gradient/Gradient2 safety is covered by the bit-faithful model replay and the oracle "
-                "until their theorems land (see DESIGN.md).",
+  "level_text": "C04_aimd_safe, C04_vegas_safe (all jitter draws, Log10 oracle in [2,400]), C04_gradient_safe (incl. zero RTTs, any countdown draws) and C04_gradient2_safe are proved for every "
+                "sample list of unbounded length: no panic, finite estimate, reported integer within [floor, ceiling]; C04_windowed_safe lifts this through the windowed wrapper for every raw sample "
+                "list whose RTT sum stays below 2^63; the lookup tables of limit/functions are re-dumped and checked against the model's closed forms on every run.",
   "level_note": "Trusted: Coq kernel + 4 stdlib real/classical axioms (Flocq); binary64 model of the Go float operations (amd64 int conversion, math.Max/Min); "
                 "math.Log10 beyond the lookup table and math/rand draws are oracle inputs constrained only by range; model tied to limit/*.go by bit-exact replay of every sample.",
   "technique": "Coq/Flocq invariant proof over binary64 model + bit-exact differential replay",
